@@ -250,6 +250,23 @@ def check_gctm(pc, rng):
             if not err <= 1e-3:
                 bad.append(("GCTM:moments-not-reproduced:" + label, dict(L=L, rel=float(err), h=hh.tolist(), cn2=cc.tolist())))
                 break
+    # a slab whose only layer lies a few metres below the slab's upper edge (all slabs occupied: in scope)
+    for hd, Ld in ((np.array([0.0, 2000.0, 5000.0, 13330.0, 15000.0, 17000.0, 20000.0]), 3), (np.array([0.0, 3000.0, 9995.0, 12000.0, 16000.0, 20000.0]), 2),
+                   (np.array([0.0, 1000.0, 4998.5, 7000.0, 9999.0, 12000.0, 14999.5, 18000.0, 20000.0]), 4)):
+        pd_ = (1.0 + np.arange(len(hd)) % 3) * 1e-14
+        edges = hd.min() + (hd.max() - hd.min()) / Ld * np.arange(Ld + 1)
+        if np.histogram(hd, bins=edges)[0].min() == 0:
+            continue
+        out = pc.GCTM(hd.copy(), pd_.copy(), Ld)
+        hh, cc = np.asarray(out[0], float), np.asarray(out[1], float)
+        n += 1
+        okd = hh.shape == (Ld,) and np.all(np.isfinite(hh)) and np.all(np.isfinite(cc)) and np.all(cc >= 0) and np.all(hh >= 0)
+        if okd:
+            errd = max(abs((cc * (hh / 1e4) ** k).sum() - (pd_ * (hd / 1e4) ** k).sum()) / (pd_ * (hd / 1e4) ** k).sum() for k in range(2 * Ld - 1))
+            okd = errd <= 5e-2
+        if not okd:
+            bad.append(("GCTM:exactly-L-non-negative:layer-just-below-a-slab-edge", dict(L=Ld, h=hh.tolist(), cn2=cc.tolist())))
+            break
     # the optional scalings are numerical conditioning only: the profile in kilometres with h_scaling=10, a shallow profile with
     # h_scaling=5000, strengths re-scaled with cn2_scaling - the returned layers must describe the same (re-scaled) profile
     h = np.linspace(0.0, 15000.0, 14)
